@@ -19,6 +19,7 @@ FINDERS = [
     (r'LimitIter', 'find_limit_slice'),
     (r'Handles', 'find_handles_setops'),
     (r'::reindex|::gaps', 'find_reindex_ids'),
+    (r'RelationMap|RelationBTreeMap|StoreCallbacks<(Annotation|AnnotationData|DataKey)>|StoreFor<(AnnotationData|DataKey)>|preremove__unindex|AnnotationDataSet::|Annotation::remove_data', 'find_store_consistency'),
     (r'init_textseliters|next_textselection|FindTextSelectionsIter|TextResource::iter|vx_inserted_c', 'find_related_text'),
 ]
 
@@ -32,7 +33,8 @@ def finder_for(cid):
 
 def run_finder(name, timeout=900):
     """build the real crate with the hook enabled in a scratch target dir (removed afterwards) and run one finder"""
-    target = tempfile.mkdtemp(prefix='vx_replay_', dir=os.environ.get('VX_SCRATCH', '/var/tmp'))
+    cache = os.environ.get('VX_TARGET_CACHE')   # optional: reuse a build directory across runs (matrix runs of the author); default: fresh and removed
+    target = cache or tempfile.mkdtemp(prefix='vx_replay_', dir=os.environ.get('VX_SCRATCH', '/var/tmp'))
     env = dict(os.environ, STAM_VERIF_DIR=VERIF, RUSTFLAGS='--cfg stam_verif', CARGO_NET_OFFLINE='true')
     cmd = ['cargo', 'test', '--offline', '--manifest-path', os.path.join(gen.REPO, 'Cargo.toml'), '--target-dir', target,
            '--lib', 'verif_hooks::replay::' + name, '--', '--nocapture', '--exact']
@@ -42,7 +44,8 @@ def run_finder(name, timeout=900):
     except subprocess.TimeoutExpired:
         out = 'TIMEOUT'
     finally:
-        shutil.rmtree(target, ignore_errors=True)
+        if not cache:
+            shutil.rmtree(target, ignore_errors=True)
     for ln in out.splitlines():
         if ln.startswith('WITNESS '):
             try:
@@ -50,7 +53,7 @@ def run_finder(name, timeout=900):
             except Exception:
                 return dict(found=True, finder=name, input=ln[len('WITNESS '):], cmd=' '.join(cmd))
     if 'NO-WITNESS' in out:
-        return dict(found=False, finder=name, note='finder enumerated its small-input space through the real code without finding a failing input', cmd=' '.join(cmd))
+        return dict(found=False, completed=True, finder=name, note='finder enumerated its small-input space through the real code without finding a failing input', cmd=' '.join(cmd))
     return dict(found=False, finder=name, note='finder did not run to completion: ' + out[-400:], cmd=' '.join(cmd))
 
 
